@@ -52,18 +52,27 @@ func (node *tagIncludeNode) Execute(ctx *ExecutionContext, writer TemplateWriter
 			}
 			return err2.(*Error)
 		}
-		err2 = includedTpl.ExecuteWriter(includeCtx, writer)
+		err2 = includedTpl.executeIncluded(ctx, includeCtx, writer)
 		if err2 != nil {
-			return err2.(*Error)
+			return node.executionError(ctx, err2)
 		}
 		return nil
 	}
 	// Template is already parsed with static filename
-	err := node.tpl.ExecuteWriter(includeCtx, writer)
+	err := node.tpl.executeIncluded(ctx, includeCtx, writer)
 	if err != nil {
-		return err.(*Error)
+		return node.executionError(ctx, err)
 	}
 	return nil
+}
+
+// executionError returns the error of an included template's execution as
+// *Error (an error of the caller's writer is none yet).
+func (node *tagIncludeNode) executionError(ctx *ExecutionContext, err error) *Error {
+	if pongoErr, ok := err.(*Error); ok {
+		return pongoErr
+	}
+	return ctx.OrigError(err, nil)
 }
 
 type tagIncludeEmptyNode struct{}
@@ -88,7 +97,7 @@ func tagIncludeParser(doc *Parser, start *Token, arguments *Parser) (INodeTag, *
 
 		// Parse the parent
 		includeNode.filename = includedFilename
-		includedTpl, err := doc.template.set.FromFile(includedFilename)
+		includedTpl, err := doc.template.set.fromFileLoadedBy(doc.template, includedFilename)
 		if err != nil {
 			// if this is ReadFile error, and "if_exists" token presents we should create and empty node
 			if err.(*Error).Sender == "fromfile" && ifExists {
